@@ -62,11 +62,13 @@ func cfgFromRequest(r *http.Request, log *slog.Logger) (nowMS int, cfg *Response
 	}
 
 	publishTime := q.Get("publishTime")
+	fromPublishTime := false
 	if publishTime != "" {
 		nowMS, err = getMSFromDate(publishTime)
 		if err != nil {
 			return 0, nil, generateAndLogHttpError(log, "bad publishTime query", http.StatusBadRequest)
 		}
+		fromPublishTime = true
 	}
 
 	cfg, err = processURLCfg(u.String(), nowMS)
@@ -75,7 +77,8 @@ func cfgFromRequest(r *http.Request, log *slog.Logger) (nowMS int, cfg *Response
 		return 0, nil, generateAndLogHttpError(log, msg, http.StatusBadRequest)
 	}
 
-	if cfg.TimeOffsetS != nil {
+	if cfg.TimeOffsetS != nil && !fromPublishTime {
+		// A publishTime comes from an MPD that was generated with the offset: it is an instant of the shifted clock already
 		offsetMS := int(*cfg.TimeOffsetS * 1000)
 		nowMS += offsetMS
 	}
